@@ -493,9 +493,6 @@ class RealWorld(object):
         if self.obspar:
             self.unf += [n for n, _, _ in self.OBS_CANDS if n not in self.fit]
         self.unf_space = {n: ('log' if self.entry(n)[4] == 'log' else 'lin') for n in self.unf}
-        nmodel = sum(1 for n in self.fit if n not in self.OBS_ROLE)
-        if any(n in self.OBS_ROLE for n in self.fit[:nmodel]):
-            raise Machinery('fixture: observation parameters are expected after the model parameters')
         self.bound = Bound(sampler, self.opt, tmpdir)
 
     def entry(self, name):
@@ -590,8 +587,10 @@ class RealWorld(object):
                 binned = self.twin_binner.bindown(g, s)[1]
         except InvalidModelException as e:
             return EXC_NAMES.get(type(e).__name__, 'InvalidModel'), None, None
+        if not any(math.isfinite(float(m)) for m in binned):
+            return 'NaNAll', None, None           # no bin comparable (NaN, or -inf: negative radius AND temperature)
         if any(math.isinf(float(m)) for m in binned):
-            raise Machinery('oracle model gave an infinite bin (outside the generated classes)')
+            raise Machinery('oracle model gave an infinite bin next to finite ones (outside the generated classes)')
         z = [(float(d) - float(m)) / float(e) for d, m, e in
              zip(data, binned, self.twin_obs.errorBar) if float(m) == float(m)]
         if not z:
